@@ -152,7 +152,7 @@ Definition pg_table : list (string * string) :=
 (* orix.quaternion.symmetry.point_group_aliases, in dict order *)
 Definition alias_table : list (string * list string) :=
   [("121", ["20"]); ("2/m", ["2"]); ("222", ["22"]); ("422", ["42"]); ("432", ["43"]);
-   ("m-3m", ["m3m"])]%string.
+   ("622", ["62"]); ("m-3m", ["m3m"])]%string.
 
 Definition group_names : list string := map fst pg_table.
 
